@@ -355,6 +355,31 @@ def r20c(ctx):
         if isinstance(n, ast.Assign) and isinstance(n.value, ast.Call) and isinstance(n.value.func, ast.Attribute) \
                 and n.value.func.attr == "build_tree_handling_errors" and isinstance(n.targets[0], ast.Name):
             calls.append(n)
+    if len(calls) < 2:
+        # the loading is written in a form the clauses below do not read (a loop over both files, a list of results).  One
+        # necessary condition can still be decided: the message never goes through the level-filtered logger
+        tainted = set()
+        stmts = list(walk_no_nested(f.node))
+
+        def dirty(e):
+            return any((isinstance(x, ast.Name) and x.id in tainted) or (isinstance(x, ast.Attribute) and x.attr == "build_tree_handling_errors")
+                       for x in ast.walk(e))
+        for _ in range(4):
+            for n in stmts:
+                if isinstance(n, ast.Assign) and dirty(n.value):
+                    tainted |= {t.id for tg in n.targets for t in ast.walk(tg) if isinstance(t, ast.Name)}
+                if isinstance(n, ast.Call) and isinstance(n.func, ast.Attribute) and n.func.attr in ("append", "extend", "add") \
+                        and isinstance(n.func.value, ast.Name) and any(dirty(a) for a in n.args):
+                    tainted.add(n.func.value.id)
+                if isinstance(n, (ast.For, ast.comprehension)) and dirty(n.iter):
+                    tainted |= {t.id for t in ast.walk(n.target) if isinstance(t, ast.Name)}
+        for n in stmts:
+            if isinstance(n, ast.Call) and isinstance(n.func, ast.Attribute) and n.func.attr in ("error", "warning", "info", "critical", "exception", "log") \
+                    and ((dotted(n.func.value) or "").split(".")[0] in ("log", "logger", "logging") or "getLogger" in ast.unparse(n.func.value)) \
+                    and any(dirty(a) for a in n.args):
+                ctx.violation("R20c", f.file, "main", n, "parse error goes to stderr",
+                              f"`{norm(n, 70)}` reports the parse error through the logger, whose level the command line sets: with --quiet "
+                              f"(or any level above the call's) a malformed input ends the run with status 1 and no message at all")
     ctx.floor("R20c", len(calls), 2, "build_tree_handling_errors call sites in main")
     first_print = None
     for n in walk_no_nested(f.node):
